@@ -1,47 +1,102 @@
 """C11  Batch windows stay in range, tile the sequence and link consistently."""
+import z3
 from pyvc.run import Prop, Lemma
-from pyvc import native
 from pyvc.contracts import REGISTRY
-import contracts.dt_insv  # noqa
-
-
-def _opt_native(clause_name):
-    def run(model):
-        from DocumentTemplate.DT_InSV import opt
-        L = int(model.get('len_sequence', 1))
-        a = dict(start=int(model.get('start', 0)), end=int(model.get('end', 0)),
-                 size=int(model.get('size', 0)), orphan=int(model.get('orphan', 0)))
-        seq = native.CountingSeq(L)
-        clause = REGISTRY['DocumentTemplate.DT_InSV.opt'].ensures[clause_name]
-        try:
-            result = opt(a['start'], a['end'], a['size'], a['orphan'], seq)
-        except Exception as e:  # noqa
-            return dict(holds=False, inputs=dict(a, length=L), observed='raised %r' % (e,), clause=clause)
-        env = dict(a, sequence=seq, result=result)
-        holds = native.eval_clause(clause.replace('old(pulled(sequence))', '0'), env)
-        return dict(holds=holds, inputs=dict(a, length=L), observed=list(result), clause=clause,
-                    call='DocumentTemplate.DT_InSV.opt(%(start)d, %(end)d, %(size)d, %(orphan)d, <sequence of length L>)' % a)
-    return run
-
+import contracts  # noqa
+from contracts.dt_insv import OPT_ENSURES
+from native import c11 as native_c11
 
 OPT = 'DocumentTemplate.DT_InSV.opt'
+WB = 'DocumentTemplate.DT_In.InClass.renderwb'
+WINDOW_CLAUSES = ('start_lo', 'ordered', 'end_in_seq', 'start_in_seq', 'size_out', 'win_A', 'win_B', 'win_C', 'win_D')
+
+
+def opt_post(tag, start, end, size, orphan, L):
+    """the verified postcondition of opt, instantiated for one call (clauses are taken from the contract text)"""
+    from pyvc.engine import Engine, Env
+    from pyvc.values import VI, VT, VSeq
+    E = Engine(REGISTRY)
+    mod = E.load_module('DocumentTemplate.DT_InSV')
+    env = Env(mod)
+    res = [z3.Int('%s_%s' % (tag, n)) for n in ('start', 'end', 'size')]
+    sq = VSeq('seq', L)
+    env.locals.update(start=VI(start), end=VI(end), size=VI(size), orphan=VI(orphan), sequence=sq, result=VT([VI(r) for r in res]))
+    hyps = [E.as_z3_bool(E.eval_spec(OPT_ENSURES[k], env)) for k in WINDOW_CLAUSES]
+    return res, [h if not isinstance(h, bool) else z3.BoolVal(h) for h in hyps]
+
+
+def _next_progress():
+    s, e, sz, orphan, overlap, L = z3.Ints('s e sz orphan overlap L')
+    (s2, e2, sz2), hyps = opt_post('next', e + 1 - overlap, z3.IntVal(0), sz, orphan, L)
+    hyps += [L >= 1, orphan >= 0, sz >= 1, overlap >= 0, overlap < sz, 1 <= s, s <= e, e < L,
+             e == s + sz - 1]          # a window that does not reach the end has exactly size elements (opt win_A/C)
+    goal = z3.And(s2 == e + 1 - overlap, s2 > s, e2 > e, s2 <= e + 1, e2 <= L, s2 >= 1)
+    return hyps, goal
+
+
+def _prev_reaches_start():
+    s, e, sz, orphan, overlap, L = z3.Ints('s e sz orphan overlap L')
+    (s0, e0, sz0), hyps = opt_post('prev', z3.IntVal(0), s - 1 + overlap, sz, orphan, L)
+    hyps += [L >= 1, orphan >= 0, sz >= 1, overlap >= 0, overlap < sz, 2 <= s, s <= e, e <= L]
+    goal = z3.And(e0 == z3.If(s - 1 + overlap <= L, s - 1 + overlap, L), z3.Or(s0 < s, s0 == 1), s0 >= 1)
+    return hyps, goal
+
+
+def _first_window_starts_at_1():
+    sz, orphan, L = z3.Ints('sz orphan L')
+    (s0, e0, sz0), hyps = opt_post('first', z3.IntVal(1), z3.IntVal(0), sz, orphan, L)
+    hyps += [L >= 1, orphan >= 0, sz >= 1]
+    goal = z3.And(s0 == 1, z3.Or(e0 == L, z3.And(e0 == sz, e0 + orphan <= L)))
+    return hyps, goal
+
+
+LEMMAS = [
+    Lemma('C11.lemma.next_batch_progress', _next_progress, uses=[OPT],
+          text='for overlap < size, the batch announced by next-sequence starts at end+1-overlap, strictly after the current '
+               'start, and ends strictly later: following next-sequence-start-number shows every element, shares exactly '
+               'overlap elements, and terminates after at most length steps'),
+    Lemma('C11.lemma.previous_batch_reaches_start', _prev_reaches_start, uses=[OPT],
+          text='the batch announced by previous-sequence ends at start-1+overlap and starts strictly earlier (or at 1): '
+               'following previous-sequence-start-number reaches element 1'),
+    Lemma('C11.lemma.first_window', _first_window_starts_at_1, uses=[OPT],
+          text='start=1: the window is 1..size, or 1..length when fewer than orphan elements would remain'),
+]
+
+
+def _bounded(tier):
+    n, fail = native_c11.search(big=(tier == 'thorough'))
+    return dict(name='C11.native_batch_enumeration', tool='native enumeration on the real code',
+                bound='length 0..%d, start/end None,-1..%d, sizes, orphans, overlaps; literal and variable parameters' % ((8, 10) if tier == 'thorough' else (5, 7)),
+                cases=n, violation=bool(fail), witness=fail)
+
+
 PROP = Prop(
     'C11',
-    contracts=[REGISTRY[OPT]],
+    contracts=[REGISTRY[OPT], REGISTRY[WB], REGISTRY['DocumentTemplate.DT_In.int_param']],
     claims=[OPT + '::ensures.start_lo', OPT + '::ensures.ordered', OPT + '::ensures.end_in_seq', OPT + '::ensures.start_in_seq',
-            OPT + '::ensures.size_out', OPT + '::ensures.win_*', OPT + '::raises_only'],
-    natives={OPT + '::ensures.' + k: _opt_native(k) for k in
-             ('start_lo', 'ordered', 'end_in_seq', 'start_in_seq', 'size_out', 'win_A', 'win_B', 'win_C', 'win_D')},
+            OPT + '::ensures.size_out', OPT + '::ensures.win_*', OPT + '::raises_only',
+            WB + '::cut*.C11.*', WB + '::call.opt.*', WB + '::cut*.in_window*', WB + '::cut*.size_pos*', WB + '::cut*.nonempty*',
+            'C11.lemma.*'],
+    lemmas=LEMMAS,
+    native_default=native_c11.native_for,
+    bounded=[_bounded],
+    assumptions=['batch parameters resolved by int_param are integers (literal digits, or namespace values that are int or numeric str) and orphan >= 0'],
+    not_decided=['the chain argument (repeatedly following next-sequence covers 1..length) is the induction whose step is the '
+                 'mechanised lemma next_batch_progress; the induction itself is not mechanised',
+                 'the values of the *-start-number / *-end-number variables are computed from the *-index entries by '
+                 'sequence_variables.__getitem__ (number = index + 1): see C10'],
 )
 
 MANIFEST = dict(
     category='proof',
-    text='Every clause of the window contract of DT_InSV.opt (range, order, size, the four start/end '
-         'sign cases with orphan handling) is proved for all integers and all sequence lengths by '
-         'symbolic execution of the real function body; linear integer VCs, z3.',
-    note='Trusted: pyvc (VC generator), z3, CPython ast. Assumed: abstract sequence model '
-         '(sequence[k] raises IndexError iff k >= len for k >= 0; negative k raises), orphan >= 0, '
-         'non-empty sequence (renderwb tests sequence[0] first).',
-    technique='contract-based deductive verification (pyvc symbolic execution + z3)',
+    text='opt: strongest window postcondition by the four start/end sign cases proved for all integers and lengths; renderwb: '
+         'after opt and the end clamp 1 <= start <= end <= length, every displayed index lies in first..end-1 and inside the '
+         'sequence, previous-/next-sequence flags exactly on the first/last element when elements precede/remain, announced '
+         'previous batch ends at start-1+overlap and next batch starts at end+1-overlap (obligations at cut points of the real '
+         'loop body); lemmas over the verified opt clauses: next batch strictly advances with exactly overlap shared elements, '
+         'previous batch strictly recedes to 1.',
+    note='Trusted: pyvc, z3, CPython ast. Assumed: abstract sequence model (sequence[k] raises IndexError iff k >= len, k >= 0), '
+         'orphan >= 0, integer batch parameters, opaque blocks obey the stack protocol.',
+    technique='contract-based deductive verification (pyvc symbolic execution, cut-point obligations, z3 linear integer arithmetic)',
     design_ref='DESIGN.md 4 C11',
 )
